@@ -550,16 +550,16 @@ PROPS["C04"] = {
     "pkg": "c04",
     "level": "fault_enumeration",
     "rule": ("fault space = protocol scenario (session, AOR, Gennaro and Canetti over threshold and CNF structures, redistribution refresh / "
-             "to-unanimity / anchored, Lindell22 BIP-340 with 2 and 3 signers, DKLs23 SoftSpoken (BBOT in thorough), Lindell17) x deviator "
+             "to-unanimity / anchored / hand-over to a disjoint anchorless holder set, Lindell22 BIP-340 with 2 and 3 signers, DKLs23 SoftSpoken (BBOT in thorough), Lindell17) x deviator "
              "x outgoing message slot (round, unicast-to-recipient or broadcast) x leaf path class of the message's CBOR tree (nested "
              "encodings such as proofs opened recursively) x operator {bitflip, replace by same-field value of another sender / recipient / "
              "parallel session, swap, zero, int+-1, truncate, extend, replay-other-sender, replay-parallel-session, swap-recipient, drop}; "
              "the deviator's own state stays honest (wire fault); unicast faults hit one recipient, broadcast faults all recipients "
-             "identically (through echo broadcast). A case is non-trivial iff the operator applied and changed the encoding; distinct = "
+             "identically (through echo broadcast). A case is non-trivial iff the operator applied and changed a decoded value (a re-encoding of the same value, e.g. the two SEC1 spellings of the identity, is a no-op); distinct = "
              "(scenario, round, unicast/broadcast, leaf class, operator, deviator position). Oracles: S1 no panic / no hang, S2 every blamed "
              "identity is the deviator, S3 every output released by honest parties or aggregators passes the output oracle (independent "
              "signature verification, share-vs-public-key consistency, unchanged public key), D a bound leaf's alteration is rejected by the "
-             "recipient (unicast) or an honest party (broadcast); free leaves are listed explicitly."),
+             "recipient (unicast) or an honest party (broadcast); free leaves are listed explicitly. TestBoldyrevaPartialFaults: the same operators on every component of a threshold-BLS partial signature (three rogue-key modes, both key sizes, threshold / CNF / gate structures with multi-row holders): the aggregator must reject or release a signature that passes the pairing equation."),
     "assumptions": COMMON_ASSUME + ["single static deviator; wire-level faults only", "the free-list in harness/c04/freelist_test.go (leaves a sender may choose afresh) is part of the trusted base"],
     "quick": {"scale": 1, "shards": 16, "timeout_s": 1500},
     "thorough": {"scale": 8, "shards": 16, "timeout_s": 7200},
